@@ -564,6 +564,17 @@ def _recipe_requests():
     # codecs that exist but reject the text in their own way (plain UnicodeError / ValueError, not UnicodeDecodeError / LookupError)
     special = {f"urlencoded-charset-{n}": urlenc(cs, b"a=\xff") for n, cs in (("undefined", "undefined"), ("nul", "a\x00b"), ("idna", "idna"), ("punycode", "punycode"))}
     special.update({f"multipart-charset-{n}": multipart_charset(cs) for n, cs in (("undefined", "undefined"), ("punycode", "punycode"), ("idna", "idna"), ("nul", "a\x00b"))})
+    def date_header(value):
+        def run(iface):
+            d = make_request(iface, {"date": value}).date
+            if d is not None:
+                d.isoformat(), d.timestamp()
+        return run
+    for dname, dv in (("year-9999-negative-offset", "Fri, 31 Dec 9999 23:59:59 -0001"), ("year-9999-gmt", "Fri, 31 Dec 9999 23:59:59 GMT"),
+                      ("year-1-positive-offset", "Mon, 01 Jan 0001 00:00:00 +2359"), ("naive", "Tue, 14 Nov 2023 22:13:21 -0000"),
+                      ("no-zone", "Tue, 14 Nov 2023 22:13:21"), ("garbage", "yesterday-ish"), ("empty", ""), ("year-0", "Sat, 01 Jan 0000 00:00:00 GMT"),
+                      ("huge-offset", "Tue, 14 Nov 2023 22:13:21 +9999"), ("month-13", "Tue, 14 Foo 2023 22:13:21 GMT")):
+        special[f"date-header-{dname}"] = date_header(dv)
     special["urlencoded-1001-fields"] = many_fields(b"&".join(b"k%d=v" % i for i in range(1001)))
     special["urlencoded-5000-bare-ampersands"] = many_fields(b"&" * 5000)
     for tzname, tz in (("east", "JST-9"), ("west", "EST5"), ("far-east", "XXX-14")):
